@@ -45,10 +45,23 @@ def _fill_matches(rule, world, render):
 
 
 def run_episode(spec, uid="E"):
+    events = []
+    for _ in iter_episode(spec, uid, None, events):
+        pass
+    return events
+
+
+def iter_episode(spec, uid="E", shared=None, events=None):
+    """Generator form: yields after every item, so a session driver can interleave several episodes (of different
+    drivers) that share the same real architectures (`shared`: (world number, rendering) -> (evaluable, render, back))."""
     default_kind = spec.get("render", "ident")
     worlds = {0: World(spec["world"]["modules"], spec["world"]["imports"])}
-    reals = {}
-    events = []
+    for n, w in (spec.get("more_worlds") or {}).items():      # further architectures with OTHER module trees
+        worlds[int(n)] = World(w["modules"], w["imports"])
+    reals = shared if shared is not None else {}
+    events = events if events is not None else []
+    logged = set()
+    objs = {}       # persistent rule objects ("obj": id), re-applied any number of times to any architecture
 
     # an architecture is addressed by its world number, or by [world number, rendering] (C14: the same abstract
     # world rendered under several injective component renamings inside one episode)
@@ -64,7 +77,9 @@ def run_episode(spec, uid="E"):
         if k not in reals:
             render, back = _renderer(k[1])
             reals[k] = (build_real(worlds[k[0]], render), render, back)
-            events.append({"k": "arch", "a": aid(a), "first": not events, **observe(reals[k][0], back),
+        if k not in logged:
+            logged.add(k)
+            events.append({"k": "arch", "a": aid(a), "first": not events, **observe(reals[k][0], reals[k][2]),
                            "given": worlds[k[0]].json()})
         return reals[k]
 
@@ -76,9 +91,25 @@ def run_episode(spec, uid="E"):
         if op == "eval":
             ev, render, back = real(it["a"])
             before = observe(ev, back)
-            o = evaluate(it["rule"], ev, render, back, it.get("single_as_string", True))
+            if it.get("obj") is not None:
+                from harness.rulesapi import apply as apply_rule, build as build_rule
+                try:
+                    if it["obj"] not in objs:
+                        objs[it["obj"]] = build_rule(it["rule"], render, it.get("single_as_string", True))
+                    o = apply_rule(objs[it["obj"]], ev, back)
+                except AssertionError:
+                    raise
+                except Exception as e:  # noqa: BLE001
+                    o = {"out": "error", "real": [], "miss": [], "bad": [], "raw": f"{type(e).__name__}: {e}"}
+            else:
+                o = evaluate(it["rule"], ev, render, back, it.get("single_as_string", True))
             k = (key(it["a"]), it["rid"])
-            events.append({"k": "eval", "a": aid(it["a"]), "rid": it["rid"],
+            extra = {}
+            if it.get("fresh"):       # C15: the same configuration evaluated in isolation (fresh architecture and rule)
+                o2 = evaluate(it["rule"], build_real(worlds[key(it["a"])[0]], render), render, back,
+                              it.get("single_as_string", True))
+                extra["fresh_same"] = all(o[f] == o2[f] for f in ("out", "real", "miss", "bad", "raw"))
+            events.append({"k": "eval", "a": aid(it["a"]), "rid": it["rid"], **extra,
                            "rule": _fill_matches(it["rule"], worlds[key(it["a"])[0]], render),
                            "out": o["out"], "real": o["real"],
                            "miss": [{"other": m["other"], "sub": m["sub"], "objs": m["objs"]} for m in o["miss"]],
@@ -91,7 +122,9 @@ def run_episode(spec, uid="E"):
             e = (tuple(it["e"][0]), tuple(it["e"][1]))
             n2, kind2 = key(it["a2"])
             worlds[n2] = worlds[key(it["a"])[0]].with_import(e)
-            reals[(n2, kind2)] = (build_real(worlds[n2], render), render, back)
+            if (n2, kind2) not in reals:
+                reals[(n2, kind2)] = (build_real(worlds[n2], render), render, back)
+            logged.add((n2, kind2))
             events.append({"k": "addimport", "a": aid(it["a"]), "a2": aid(it["a2"]),
                            "e": [list(e[0]), list(e[1])], **observe(reals[(n2, kind2)][0], back)})
         elif op == "query":
@@ -121,7 +154,7 @@ def run_episode(spec, uid="E"):
             events.append({"k": "law", "law": it["law"], "as": [aid(a) for a in it["as"]], "rids": it["rids"]})
         else:
             raise ValueError(op)
-    return events
+        yield events
 
 
 # ------------------------------------------------------------------ helpers to write specs
